@@ -641,7 +641,8 @@ pub fn valid_bytes(d: &Draft) -> Vec<u8> {
 // ---------------------------------------------------------------------------------------------
 // structural mutations (re-signed afterwards)
 
-pub const STRUCT_MUTATIONS: [&str; 40] = [
+pub const STRUCT_MUTATIONS: [&str; 41] = [
+    "dangling-tail",
     "unsorted-swap",
     "duplicate-key",
     "missing-last-value",
@@ -736,6 +737,21 @@ pub fn mutate(mut d: Draft, which: &'static str, c: &mut Choices) -> Mutated {
         "missing-last-value" => {
             let n = d.kv.len();
             d.kv[n - 1].1 = None;
+        }
+        "dangling-tail" => {
+            // 1..3 stray bytes after the last complete pair (a lone key, an empty list, a header that
+            // overruns the list); lenient reconstructions sign the content without them
+            let tail: Vec<u8> = match c.below(8) {
+                0 => vec![c.u8() & 0x7f],
+                1 => vec![0x80],
+                2 => vec![0xc0],
+                3 => vec![0x83],
+                4 => vec![0xb8],
+                5 => vec![0xf8],
+                6 => vec![0x81, 0x80 | c.u8()],
+                _ => vec![0x82, c.u8(), c.u8()],
+            };
+            d.kv.push((tail, None));
         }
         "missing-mid-value" => {
             let i = c.below(d.kv.len());
@@ -981,7 +997,9 @@ pub fn finish(m: &Mutated, over: SignOver) -> Vec<u8> {
 // ---------------------------------------------------------------------------------------------
 // unsigned tampers (C01)
 
-pub const FIELD_TAMPERS: [&str; 16] = [
+pub const FIELD_TAMPERS: [&str; 18] = [
+    "sig-strip-leading-zero",
+    "sig-pad-leading-zero",
     "resign-other-key",
     "sig-over-seq-plus",
     "sig-over-seq-minus",
@@ -1134,6 +1152,35 @@ pub fn field_tamper(d: &Draft, which: &str, c: &mut Choices) -> Vec<u8> {
             if c.bool() {
                 // signature by the original key over the *new* content
                 sig = sign_content(d.scheme, &d.secret, d.alt_signer, &emitted.content());
+            }
+        }
+        "sig-strip-leading-zero" | "sig-pad-leading-zero" => {
+            // search a record (vary the sequence number) whose signature has a leading zero byte in r or s,
+            // then drop that byte (a lenient big-endian parser would accept the shorter field)
+            let mut found = false;
+            if which == "sig-strip-leading-zero" {
+                let base = rlp::decode_exact(&d.seq_raw).ok().and_then(|i| i.as_str().and_then(rlp::str_to_u64)).unwrap_or(1);
+                for t in 0..1500u64 {
+                    let mut e2 = d.clone();
+                    e2.seq_raw = rlp::encode_uint(base.wrapping_add(t) % (u64::MAX - 1));
+                    let sg = sign_draft(&e2, SignOver::Literal);
+                    if sg[0] == 0 {
+                        emitted = e2;
+                        sig = sg[1..].to_vec();
+                        found = true;
+                        break;
+                    }
+                    if sg.len() == 64 && sg[32] == 0 && t % 2 == 1 {
+                        emitted = e2;
+                        sig = [&sg[..32], &sg[33..]].concat();
+                        found = true;
+                        break;
+                    }
+                }
+            }
+            if !found {
+                // pad instead: a 65-byte field with a leading zero
+                sig.insert(0, 0);
             }
         }
         "sig-bitflip" => {
